@@ -148,7 +148,7 @@ PROPS = {
                 rule="non-trivial = a successful orbiter transfer (success acknowledgement); distinct = distinct (abstract pre-state, abstract input)"),
     "C11": dict(families=["DUST", "FUNDS", "XFUND", "BIGSEQ"], groups=["ack", "bal", "stats", "xfers"], level="model_checking",
                 rule="non-trivial = an orbiter packet received while the orbiter account holds coins, with the paired control run on the emptied account executed; distinct = distinct (pre-state, input)"),
-    "C12": dict(families=["FUNDS", "STATS", "ORDER", "DISCARD"], groups=["stats"], level="model_checking",
+    "C12": dict(families=["FUNDS", "STATS", "ORDER", "DISCARD", "GENESIS"], groups=["stats"], level="model_checking",
                 rule="non-trivial = a successful orbiter transfer (statistics must change by exactly that transfer); all other steps are checked for 'unchanged'; distinct = distinct (pre-state, input)"),
     "C03": dict(families=["FAULT", "FUNDS", "BIGSEQ"], groups=["ack", "fired", "xfers", "events"], level="fault_enumeration", exhaustive=True,
                 rule="FAULT: every (payload shape x armed fault set x clean/dusty state) is one execution with fault wrappers around the real dependencies; FUNDS: naturally occurring failures; non-trivial = a reception in which an armed fault actually fired or the transfer was refused; distinct = distinct (pre-state, input incl. fault set)"),
